@@ -5,7 +5,7 @@ import ast
 
 import z3
 
-from .pyvals import (LCAT, NONE, Exc, IntSeq, NoneVal, PyCache, PyComp, PyCallable, PyConst, PyGen, PyKey, PyList, PyLit, PyMap, PyObj, PyOpt, PyStrDict, PyStrSet,
+from .pyvals import (LCAT, NONE, Exc, IntSeq, NoneVal, PyAbsList, PyUnion, PyCache, PyComp, PyCallable, PyConst, PyGen, PyKey, PyList, PyLit, PyMap, PyObj, PyOpt, PyStrDict, PyStrSet,
                      PyTuple, StrSeq, Tok, TokSeq, Val, ValSeq, fresh, is_bool, is_int, is_seq, is_str, is_tok, is_val, is_z3,
                      tok_fields)
 from .pyvc import (Tr, Unsupported, dedent, eq, is_keyword, is_soft_keyword, join_lines, lex_lt, lift, str_isspace, str_lower,
@@ -349,6 +349,8 @@ class ExprMixin:
                 r = a == b
             elif isinstance(a, (PyObj, PyConst)) or isinstance(b, (PyObj, PyConst)):
                 r = eq(a, b)
+            elif isinstance(a, PyAbsList) and isinstance(b, PyAbsList):
+                r = z3.BoolVal(a is b)          # within one state: the same list object
             else:
                 raise Unsupported("`is` on values")
             return r if isinstance(op, ast.Is) else z3.Not(r)
@@ -439,6 +441,9 @@ class ExprMixin:
         return self.bind(self.eval(e.value, st), k)
 
     def getattr(self, s, v, attr, node):
+        if isinstance(v, PyOpt):
+            self.safety(s, z3.Not(v.isnone), f"`{ast.unparse(node)[:50]}`: the value is not None (AttributeError)", node)
+            v = v.some
         if v is NONE:
             self.vc(s, z3.BoolVal(False), "safety", f"attribute .{attr} of None", getattr(node, "lineno", 0))
             return Exc("AttributeError", getattr(node, "lineno", 0), f".{attr} of None")
@@ -469,7 +474,11 @@ class ExprMixin:
                 return f[attr]
             if attr in ("is_exact_type", "loc", "loc_start", "loc_end", "is_next_to", "_replace"):
                 return PyCallable("tokmethod", attr, bound=v)
-        if is_str(v) or is_seq(v) or isinstance(v, (PyList, PyMap, PyCache, PyDictLit, PyStrDict)):
+            if attr in ("lineno", "col_offset", "end_lineno", "end_col_offset", "value", "values", "elts", "ctx", "id"):
+                # an ast-node attribute read from what is a token on this path
+                self.vc(s, z3.BoolVal(False), "safety", f"attribute .{attr} of a TokenInfo (AttributeError)", getattr(node, "lineno", 0))
+                return Exc("AttributeError", getattr(node, "lineno", 0), f".{attr} of a TokenInfo")
+        if is_str(v) or is_seq(v) or isinstance(v, (PyList, PyMap, PyCache, PyDictLit, PyStrDict, PyAbsList)):
             return PyCallable("valmethod", attr, bound=v)
         if isinstance(v, PyConst):
             g = self.const_attr(v, attr)
@@ -579,6 +588,12 @@ class ExprMixin:
             if is_str(v):
                 return z3.SubString(v, j, 1)
             return v[j]
+        if isinstance(v, PyAbsList):
+            k = self.concrete_int(i)
+            if k not in (0, -1):
+                raise Unsupported("only the first and the last element of an abstract list are modelled")
+            self.safety(s, v.n > 0, f"subscript `{ast.unparse(node)[:60]}` on a non-empty list (IndexError)", node)
+            return v.first if k == 0 else v.last
         if isinstance(v, PyComp):
             self.safety(s, z3.And(i >= -v.length, i < v.length), f"subscript `{ast.unparse(node)[:60]}` in range (IndexError)", node)
             si = z3.simplify(i)
